@@ -203,6 +203,12 @@ func (i *Importer) Commit() error {
 		}
 	case 1:
 		i.stack[0].nodeKey.nonce = 1
+		if i.stack[0].nodeKey.version < i.version {
+			// the root was created by an earlier version which is not imported: it is stored
+			// like the re-keyed root of a pruned version, otherwise that earlier version
+			// (and every version up to the imported one) would look available
+			i.stack[0].nodeKey.nonce = 0
+		}
 		if err := i.writeNode(i.stack[0]); err != nil {
 			return err
 		}
